@@ -35,7 +35,7 @@ class Objects:
         from ak.color import Palette, ConfColor, CHText
         from ak.hdoc import h_doc
         self.enum = PPEnumFieldType({0: 'Zero', 1: ('One', 'name_good'), 10: ('Ten', 'name_warn')})
-        recs = [(1, 'alpha', 0, 0), (22, 'a longer name', 1, 10), (333, None, 7, 1), (4, True, 10, 7), (5, 'e', 1, 0)]
+        recs = [(1, 'alpha', 0, 0), (22, 'a longer name', 1, 10), (333, None, 7, 1), (4, True, 10, 7), (5, 'e', 4444, 0)]      # 7 and 4444: values the enum does not describe (4444 is longer than all that it does)
         self.table = PPTable(recs, fmt='id:4,name!:3-9,st:12,st2/name:9,st2/val:5;2:2', fields=['id', 'name', 'st', 'st2'],
                              fields_types={'st': self.enum, 'st2': self.enum}, header='Header of the table')
         self.table2 = PPTable(recs[:3], fmt='st/val:2,st/name:4,st2:6', fields=['id', 'name', 'st', 'st2'],
